@@ -392,8 +392,35 @@ def r11b(run):
               construct="required+exclude declaration", message="Field.__init__ accepts required fields with on_error='exclude'")
 
 
+def r11g(run):
+    """the per-field policy that parse_value consults (self.on_error through get_on_error) is the one declared on the
+    field's own (input) Field, not on another declaration object of the same attribute"""
+    f = run.repo.func("utype.parser.field", "ParserField.__init__")
+    fa = analysis(f)
+    sets = [n for n in fa.cfg.nodes if n.kind == "stmt" and isinstance(n.ast, ast.Assign)
+            and unparse(n.ast.targets[0]) == "self.on_error"]
+    run.floor("R11g", "assignments of the per-field error policy", len(sets), 1)
+    for n in sets:
+        srcs = {unparse(x) for x in ast.walk(n.ast.value) if isinstance(x, ast.Attribute) and x.attr == "on_error"}
+        ok = srcs == {"self.field.on_error"} and not isinstance(n.ast.value, ast.IfExp)
+        run.check("R11g", f, "the field's input error policy comes from its own Field declaration", ok,
+                  construct="per-field policy taken from another declaration",
+                  message=f"ParserField.__init__: `{norm_stmt(n.ast)[:80]}` reads {sorted(srcs)}: the policy applied to "
+                          f"input values is not (only) the one declared on the field's input Field",
+                  necessity="a property whose getter and setter carry different on_error policies excludes / preserves "
+                            "invalid input by the getter's policy: on_error='exclude' on the setter raises instead",
+                  node=n.ast)
+    g = run.repo.func("utype.parser.field", "ParserField.get_on_error")
+    ga = analysis(g)
+    rets = [unparse(n.ast.value) for n in ga.cfg.nodes if n.kind == "stmt" and isinstance(n.ast, ast.Return) and ga.cfg.is_live(n)]
+    ok = "self.on_error" in rets and any(opt_attr(n.ast.value) == "invalid_values" for n in ga.cfg.nodes
+                                         if n.kind == "stmt" and isinstance(n.ast, ast.Return))
+    run.check("R11g", g, "get_on_error: the field's own policy first, the options' invalid_values otherwise", ok,
+              construct="get_on_error precedence", message=f"ParserField.get_on_error returns {rets}")
+
+
 def check(run):
-    run.rules_run += ["R11a", "R11b", "R11c", "R11d", "R11e", "R04c", "R10f"]
+    run.rules_run += ["R11a", "R11b", "R11c", "R11d", "R11e", "R11g", "R04c", "R10f", "R10h"]
     run.explain("C11: every catch-all handler around a conversion that consults an exclude/preserve policy (directly or "
                 "through a local bound to get_on_error / on_error) is partitioned by the policy literal: EXCLUDE warns, "
                 "never raises, and no store of the element / no value return is reachable; PRESERVE warns, never raises, "
@@ -405,6 +432,8 @@ def check(run):
     r11c(run)
     r11d(run)
     r11e(run)
+    r11g(run)
     from . import c10
     c10.r10f(run)
+    c10.r10h(run)
     c04.r04c(run)
